@@ -590,3 +590,37 @@ def run(index, rep, tier):
     with rep.section("R09.17"):
         rep.rule("R09.17", "a matrix obtained by copying or exporting keeps its state alphabets (C12 R12.8), and NeXML attribute values - taxon and matrix labels - are escaped as XML (C02 R02.9)")
         rep.floor("R09.17", "borrowed obligations", 2, borrow(index, rep, "C12", {"R12.8"}, "R09.17") + borrow(index, rep, "C02", {"R02.9"}, "R09.17"))
+
+    # ---- R09.18 the symbols of a standard alphabet keep their case
+    with rep.section("R09.18"):
+        rep.rule("R09.18", "state symbols keep their case: in the FORMAT statement the members of the SYMBOLS list are data, read with the case-preserving token reader - only keywords go through the upper-casing one")
+        pf = index.function(XR + "._parse_format_statement")
+        grows = [a for a in ast.walk(pf.node) if isinstance(a, ast.Assign) and norm(a.targets[0]) == "self._symbols" and isinstance(a.value, ast.BinOp)]
+        if len(grows) != 1:
+            raise AnalysisError("R09.18: growth of self._symbols in _parse_format_statement not recognised")
+        src = [x.id for x in ast.walk(grows[0].value) if isinstance(x, ast.Name) and x.id != "self"]
+        if len(src) != 1:
+            raise AnalysisError("R09.18: the token appended to self._symbols was not recognised")
+        tok = src[0]
+        pm = parent_map(pf.node)
+        loop = pm.get(grows[0])
+        while loop is not None and not isinstance(loop, ast.While):
+            loop = pm.get(loop)
+        if loop is None:
+            raise AnalysisError("R09.18: SYMBOLS loop not recognised")
+        # definitions of the token that reach the append: the one just before the loop and the one at the end of its body
+        defs = [a for a in ast.walk(loop) if isinstance(a, ast.Assign) and norm(a.targets[0]) == tok and isinstance(a.value, ast.Call)]
+        blk = pm.get(loop)
+        for fld in ("body", "orelse"):
+            lst = getattr(blk, fld, None)
+            if isinstance(lst, list) and loop in lst:
+                k = lst.index(loop)
+                if k > 0 and isinstance(lst[k - 1], ast.Assign) and norm(lst[k - 1].targets[0]) == tok:
+                    defs.append(lst[k - 1])
+        if not defs:
+            raise AnalysisError("R09.18: token reads of the SYMBOLS loop not recognised")
+        for d in defs:
+            nm_ = call_name(d.value)
+            rep.check(not nm_.endswith("ucase"), "R09.18", pf.qualname, "SYMBOLS member read through the upper-casing token reader", fn_where(pf, d), "SYMBOLS members are read with %s" % nm_,
+                      "_parse_format_statement reads the members of the SYMBOLS list with `%s`: a standard alphabet over lower-case symbols (a, b, c) is rebuilt over A, B, C, so the rows read back carry other symbols than the ones written (abca -> ABCA)" % nm_)
+        rep.floor("R09.18", "token reads feeding the SYMBOLS list", 2, len(defs))
